@@ -142,3 +142,46 @@ func VH_C14_GutiToNas() {
 	_, err := GutiToNasWithError(s)
 	_ = err
 }
+
+// text inputs with non-ASCII characters whose case mapping changes their UTF-8 length (Kelvin sign, dotted capital I,
+// Ohm and Angstrom signs, a letter that grows, plain accented letters, an invalid octet): a byte-length check made
+// before a case conversion says nothing about the length afterwards. The first MCC digit is symbolic, the other digits and the filler are fixed.
+func VH_C14_text_nonascii() {
+	menu := []string{"K", "İ", "Ω", "Å", "Ⱥ", "ß", "é", "\xff"}
+	target := vrt.Choose("bytes", 19, 20)
+	nd := vrt.Choose("digits", 5, 6)
+	k := []int{1, 3, 5}[vrt.Choose("specials", 0, 2)]
+	r := menu[vrt.Choose("rune", 0, len(menu)-1)]
+	tail := vrt.Choose("tail", 0, 3)
+	fill := target - nd - k*len(r) - tail
+	vrt.Assume(fill >= 0)
+	s := ""
+	d0 := vrt.U8("d0") // first MCC digit symbolic, the others fixed
+	vrt.Assume(d0 <= 9)
+	s += string([]byte{'0' + d0})
+	for i := 1; i < nd; i++ {
+		s += "1"
+	}
+	ascii := func(nm string, n int) string { // filler: a fixed hex letter (the lengths are what matters here)
+		b := make([]byte, n)
+		for i := range b {
+			b[i] = 'a'
+		}
+		return string(b)
+	}
+	s += ascii("f", fill)
+	for i := 0; i < k; i++ {
+		s += r
+	}
+	s += ascii("t", tail)
+	switch vrt.Choose("fn", 0, 2) {
+	case 0:
+		_, err := GutiToNasWithError(s)
+		_ = err
+	case 1:
+		_ = GutiToNas(s)
+	case 2:
+		_, _, _, err := AmfIdToNasWithError(s)
+		_ = err
+	}
+}
